@@ -1,0 +1,13 @@
+//go:build verif
+
+package autofile
+
+// Accessor used only by the verification harness.
+
+// VerifCheckLimits runs one pass of the periodic limit check, exactly what
+// processTicks does on every tick of the group ticker, so that the harness can
+// place rotation points deterministically instead of by wall-clock.
+func (g *Group) VerifCheckLimits() {
+	g.checkHeadSizeLimit()
+	g.checkTotalSizeLimit()
+}
